@@ -120,29 +120,17 @@ def run(model, rep):
     rep.floor('C14.CATCH', 2)
 
     # SINKS
-    for fi in [f for f in model.funcs.values() if f.module == MAIN and f.name not in A.stdout_wrappers]:
-        if fi.qual not in A.facts:
-            from ..facts import Facts
-            A.facts[fi.qual] = Facts(fi.node)
-            A.defs[fi.qual] = local_defs(fi.node)
-        for s in A.sinks(fi):
-            kind, why = A.classify_payload(fi, s.payload)
-            where = fi.loc(s.call)
-            key = 'C14.SINKS|%s|%s' % (fi.name, src(s.call)) + ('|handler' if s.facts and any(k.startswith('<caught:') for k, _ in s.facts) else '')
-            in_handler = s.facts is not None and ('<caught:%s>' % NOT_BENEFICIAL, True) in s.facts
-            if s.facts is None:
-                continue
-            if kind == 'listing':
-                continue  # the path listing is checked under C13.OUT / C15
-            if kind == 'minified':
-                rep.check(not in_handler and ('<did:do_minify>', True) in s.facts, 'C14.SINKS', where, src(s.call),
-                          'writes the do_minify result after do_minify returned', 'writes the minified payload inside the not-beneficial handler', key=key)
-            elif kind == 'source':
-                rep.check(in_handler, 'C14.SINKS', where, src(s.call), 'writes the bytes read, inside the not-beneficial handler',
-                          'writes the unminified source outside the not-beneficial handler', key=key)
-            else:
-                rep.violation('C14.SINKS', where, src(s.call), 'written payload is neither the do_minify result nor the bytes read: ' + why, key=key)
-    rep.floor('C14.SINKS', 8)
+    for snk in A.lifted_sinks():
+        fi = snk.func
+        ok, kind, why = A.judge_sink(snk)
+        if ok is None:
+            continue  # the path listing is checked under C13.OUT / C15
+        where = fi.loc(snk.call)
+        tgt = src(snk.target) if snk.target is not None else snk.kind
+        in_handler = ('<caught:%s>' % NOT_BENEFICIAL, True) in snk.facts
+        key = 'C14.SINKS|%s|%s|%s|%s' % (fi.name, src(snk.payload), tgt, 'handler' if in_handler else 'normal')
+        rep.check(ok, 'C14.SINKS', where, '%s%s -> %s' % (src(snk.call)[:60], ' (via %s)' % '/'.join(getattr(snk, 'via', [])) if getattr(snk, 'via', None) else '', tgt), why, why, key=key)
+    rep.floor('C14.SINKS', 3)
 
     # ENV
     reads = env_reads(model)
